@@ -54,6 +54,22 @@ def gen_cond(rng, names):
     ])
 
 
+def defined_body(rng, names, avoid=None):
+    """replacement list of an object-like macro that contains the `defined` operator.  When such a macro is used in a
+    controlling expression the operator reaches the condition through macro replacement; gcc / clang / MSVC evaluate it as if
+    the replacement list had been written in place (C 6.10.1p4 leaves it undefined; gcc is silent without -Wextra / -pedantic),
+    and so does the reference machine (the operand is never macro-expanded, the name is looked up when the macro is USED)"""
+    pool = [x for x in names if x != avoid] or list(names)
+    x, y = rng.choice(pool), rng.choice(pool)
+    k = rng.choice([0, 1, 2])
+    return rng.choice([
+        f"defined({x})", f"defined {x}", f"(defined({x}))", f"(defined {x})", f"!defined({x})", f"(!defined {x})",
+        f"(defined({x}) || defined({y}))", f"(defined({x}) && defined {y})", f"defined({x}) && defined({y})",
+        f"(defined {x} || !defined({y}))", f"(defined({x}) + defined({y}))", f"(defined({x}) && {y} == {k})",
+        f"(!defined({x}) || {k})", f"defined ( {x} )",
+    ])
+
+
 def gen_define(rng, names, safe):
     """a #define / #undef line.  `safe`: keep the unit free of redefinition diagnostics more often."""
     n = rng.choice(names)
@@ -62,6 +78,8 @@ def gen_define(rng, names, safe):
     later = [x for x in names if x > n]
     vals = ["", " 0", " 1", " 1", " 2", " 7"] + ([" " + rng.choice(later)] if later else [])
     v = rng.choice(vals)
+    if rng.random() < 0.08:
+        v = " " + defined_body(rng, names, avoid=n)
     line = f"#define {n}{v}"
     if safe and rng.random() < 0.7:
         return [f"#undef {n}", line]
@@ -69,8 +87,9 @@ def gen_define(rng, names, safe):
 
 
 class Gen:
-    def __init__(self, rng, depth, budget, names, p_err=0.03, decorate=0.08):
+    def __init__(self, rng, depth, budget, names, p_err=0.03, decorate=0.08, p_defined=0.03):
         self.rng, self.names, self.budget = rng, names, budget
+        self.p_defined = p_defined
         self.marker = 0
         self.depth0 = depth
         self.p_err = p_err
@@ -120,6 +139,32 @@ class Gen:
         self.budget -= len(out) // 2
         return [self.dirline(l) if l.startswith("#") else l for l in out]
 
+    def defined_drill(self):
+        """an object-like macro H whose replacement list contains `defined`, used in #if / #elif; then the tested name changes
+        state (#undef / #define) and H is used again: `defined` produced by macro replacement is an operator, its operand is
+        not expanded, and it is answered from the macro table in force where H is USED"""
+        r = self.rng
+        h = r.choice(self.names)
+        body = defined_body(r, self.names, avoid=h)
+        tested = [x for x in self.names if x != h and re.search(r"\b" + x + r"\b", body)]
+        out = [f"#undef {h}", f"#define {h} {body}"]
+
+        def use():
+            k = r.random()
+            if k < 0.45:
+                return [f"#if {r.choice([h, '!' + h, h + ' == 1', '(' + h + ')', h + ' && 1', '0 || ' + h])}", self.code(), "#else", self.code(), "#endif"]
+            if k < 0.75:
+                return [f"#if {r.choice(['0', '!(' + h + ')'])}", self.code(), f"#elif {h}", self.code(), "#else", self.code(), "#endif"]
+            return [f"#if {gen_cond(r, self.names)}", self.code(), f"#elif {r.choice([h, '!' + h])}", self.code(), "#endif"]
+
+        out += use()
+        if tested and r.random() < 0.7:
+            t = r.choice(tested)
+            out += [f"#undef {t}"] + ([f"#define {t}{r.choice(['', ' 0', ' 1', ' 2'])}"] if r.random() < 0.5 else [])
+            out += use()
+        self.budget -= len(out) // 2
+        return [self.dirline(l) if l.startswith("#") else l for l in out]
+
     def block(self, depth):
         r = self.rng
         out = []
@@ -127,7 +172,9 @@ class Gen:
             if self.budget <= 0:
                 break
             x = r.random()
-            if x < 0.05 and len(self.names) >= 2:
+            if x < self.p_defined and len(self.names) >= 2:
+                out += self.defined_drill()
+            elif x < self.p_defined + 0.05 and len(self.names) >= 2:
                 out += self.indirection_drill()
             elif x < 0.34:
                 out.append(self.code())
@@ -156,10 +203,11 @@ class Gen:
         return out
 
 
-def gen_program(rng):
+def gen_program(rng, p_defined=0.03, force_defined=False):
     names = NAMES[: rng.choice([3, 4])]
-    g = Gen(rng, rng.randint(1, 6), rng.randint(6, 40), names)
-    lines = g.block(g.depth0)
+    g = Gen(rng, rng.randint(1, 6), rng.randint(6, 40), names, p_defined=p_defined)
+    lines = g.defined_drill() if force_defined else []
+    lines += g.block(g.depth0)
     while g.budget > 8 and rng.random() < 0.6:
         lines += g.block(g.depth0)
     return lines[:60], names
@@ -560,6 +608,449 @@ def stream_c23(ctx, drv, impl, root, n, deadline):
         report(ctx, drv, impl, root, evaluate(ctx, drv, impl, root, text, gen_platforms(ctx.rng, names), "c23"))
 
 
+# ----------------------------------------------------------------------------------------------
+# command-line stream: the platform's compile command, through the compilation database
+# ----------------------------------------------------------------------------------------------
+ARGV0S = ["gcc", "gcc", "/usr/bin/gcc", "clang", "/usr/bin/cc"]
+FILLERS = [["-O2"], ["-g"], ["-O"], ["-I", "inc"], ["-Iinc"], ["-c"], ["-O3"], ["-isystem", "sys"]]
+# per-macro histories of -D / -U on one command line (relative order kept when the histories are merged)
+HISTORIES = [[], ["D"], ["D"], ["U"], ["U", "D"], ["U", "D"], ["U", "D"], ["D", "U"], ["D", "U"], ["D", "U", "D"], ["U", "D", "U"],
+             ["U", "U", "D"], ["D", "D"]]
+
+
+def gen_cmdline(rng, names, path):
+    """(argv0, options): -D / -U for the names in every relative order, attached and separate spelling, a few other options"""
+    per_name = []
+    # in 45 % of the commands no macro is undefined after it was defined (every -U precedes the -D of its macro or stands alone)
+    pool = [h for h in HISTORIES if "D" not in h or "U" not in h[h.index("D"):]] if rng.random() < 0.45 else HISTORIES
+    for n in names:
+        later = [x for x in names if x > n]
+        h = rng.choice(pool)
+        val = None
+        seq = []
+        for k in h:
+            if k == "U":
+                seq.append(["-U" + n] if rng.random() < 0.6 else ["-U", n])
+                val = None
+            else:
+                if val is None or h == ["D", "U", "D"]:
+                    val = rng.choice(["", "=", "=0", "=1", "=1", "=2", "=7"] + (["=" + rng.choice(later)] if later else []))
+                seq.append(["-D" + n + val] if rng.random() < 0.6 else ["-D", n + val])
+        per_name.append(seq)
+    opts = []
+    while any(per_name):
+        q = rng.choice([x for x in per_name if x])
+        opts.append(q.pop(0))
+        if rng.random() < 0.15:
+            opts.append(list(rng.choice(FILLERS)))
+    if rng.random() < 0.5:
+        opts.insert(rng.randint(0, len(opts)), list(rng.choice(FILLERS)))
+    tail = rng.choice([["-c", path], [path], ["-c", path, "-o", "u.o"], ["-o", "u.o", "-c", path]])
+    flat = [a for o in opts for a in o]
+    return rng.choice(ARGV0S), (flat + tail if rng.random() < 0.8 else tail + flat)
+
+
+def du_options(argv):
+    """the -D / -U options of an argument vector in command-line order: [('D', 'A=1', [tokens]), ('U', 'A', [tokens]), ...]
+    (both spellings; the options with a separate argument that the generator emits are skipped with their argument)"""
+    out, i = [], 0
+    while i < len(argv):
+        a = argv[i]
+        if a in ("-D", "-U") and i + 1 < len(argv):
+            out.append((a[1], argv[i + 1], argv[i:i + 2]))
+            i += 2
+        elif a[:2] in ("-D", "-U") and len(a) > 2:
+            out.append((a[1], a[2:], [a]))
+            i += 1
+        elif a in ("-I", "-isystem", "-o", "-include"):
+            i += 2
+        else:
+            i += 1
+    return out
+
+
+def reference_defs(argv):
+    """What a compiler driver does with the macro options of a command line, by definition (GCC manual, "Preprocessor
+    Options": "-D and -U options are processed in the order they are given on the command line"; -D NAME = NAME defined
+    as 1; -U NAME cancels any previous definition).  Returns (defs in force when the unit starts, diagnostic?):
+    a -D of a name that is still defined with a different body is a redefinition (gcc warns: outside WF)."""
+    table, diag = {}, False
+    for k, v, _ in du_options(argv):
+        name = v.split("=", 1)[0]
+        if k == "U":
+            table.pop(name, None)
+        else:
+            body = v.split("=", 1)[1] if "=" in v else "1"
+            if name in table and table[name][0] != body:
+                diag = True
+            table.pop(name, None)
+            table[name] = (body, v)
+    return [v for _, v in table.values()], diag
+
+
+def undefine_after_define(argv):
+    """names with a -U NAME that follows a -D NAME[=...] on the command line (input part of finding F-C01-2)"""
+    seen, out = set(), []
+    for k, v, _ in du_options(argv):
+        name = v.split("=", 1)[0]
+        if k == "D":
+            seen.add(name)
+        elif name in seen and name not in out:
+            out.append(name)
+    return out
+
+
+def is_undef_after_define(case):
+    """classifier of finding F-C01-2: the compile command has a -U NAME after a -D NAME of the same macro, and what the
+    implementation reports is exactly the analysis of the command with its -U options dropped"""
+    return bool(case.get("cmdline")) and any(
+        undefine_after_define(c["argv"]) and c.get("as_if_U_dropped") for c in case["commands"].values())
+
+
+CLASSIFIERS.append(("F-C01-2", is_undef_after_define))
+
+
+def gcc_cmdline_markers(text, argv):
+    """gcc -E run with the macro options of the SAME command line (order and spelling kept)"""
+    opts = [t for _, _, toks in du_options(argv) for t in toks]
+    try:
+        r = subprocess.run(["gcc", "-E", "-P", "-undef", "-x", "c"] + opts + ["-"], input=text, capture_output=True, text=True, timeout=20)
+    except Exception:  # noqa
+        return None
+    if r.stderr.strip() or r.returncode:
+        return None
+    return set(int(t[1:]) for t in r.stdout.replace(";", " ").split() if t.startswith("m") and t[1:].isdigit())
+
+
+def cmdline_find(impl, root, text, commands, form):
+    """the real path of a compile command: compile_commands.json -> config.load_database (CompileCommand, ArgumentParser.parse_args)
+    -> finder.find.  {platform: {'ok': rows} | {'exc': name}}"""
+    from codebasin import config
+
+    root = str(root)
+    path = os.path.join(root, "u.c")
+    with open(path, "w", newline="") as f:
+        f.write(text)
+    try:
+        cfg = {}
+        for p, c in commands.items():
+            db = os.path.join(root, f"cc_{p}.json")
+            entry = {"directory": root, "file": path}
+            argv = [c["argv0"]] + [path if a == "@FILE@" else a for a in c["argv"]]
+            if form == "command":
+                import shlex
+                entry["command"] = shlex.join(argv)
+            else:
+                entry["arguments"] = argv
+            with open(db, "w") as f:
+                json.dump([entry], f)
+            cfg[p] = config.load_database(db, root)
+            os.remove(db)
+        st = impl.finder.find(root, impl.CodeBase(root), cfg, summarize_only=False)
+        tree, m = st.get_tree(path), st.get_map(path)
+        rows = [[KIND.get(type(n).__name__, type(n).__name__), list(n.lines), sorted(m[n])] for n in tree.walk() if isinstance(n, impl.pp.CodeNode)]
+        return {p: {"ok": [[k, ls, p in ps] for k, ls, ps in rows]} for p in commands}
+    except Exception as e:  # noqa
+        if len(commands) == 1:
+            return {p: {"exc": type(e).__name__} for p in commands}
+    finally:
+        if os.path.exists(path):
+            os.remove(path)
+    out = {}
+    for p, c in commands.items():
+        out.update(cmdline_find(impl, root, text, {p: c}, form))
+    return out
+
+
+def evaluate_cmdline(ctx, drv, impl, root, text, commands, form, use_gcc=True, record=True):
+    """problems of one unit analysed for platforms given by compile commands: [(kind, case, what[, model])]"""
+    problems = []
+    got = cmdline_find(impl, root, text, commands, form)
+    for p, c in commands.items():
+        argv = c["argv"]
+        defs, diag = reference_defs(argv)
+        g = got[p]
+        case = {"text": text, "cmdline": True, "form": form, "commands": {p: dict(c)}, "origin": "cmdline"}
+        shown = f"{c['argv0']} {' '.join('u.c' if x == '@FILE@' else x for x in argv)}"
+        if record:
+            ctx.count(key="cmdline")
+        rep = mrep = None
+        if drv is not None:
+            rep = drv.ask({"op": "c01", "text": text, "defs": defs})
+            # model of the code: the C11 argument-parser model gives the defines, the C01 model analyses the unit with them
+            a = drv.ask({"op": "c11full", "argv": ["u.c" if x == "@FILE@" else x for x in argv], "argv0": c["argv0"]})
+            if "ok" in a.get("model", {}) and all(isinstance(d, str) for d in a["model"]["ok"]["defines"]):
+                mrep = drv.ask({"op": "c01", "text": text, "defs": a["model"]["ok"]["defines"]})["model"]
+        wf = rep is not None and bool(rep["spec"].get("wf")) and not diag
+        if mrep is not None:
+            same = ("ok" in g and g["ok"] == mrep["ok"]) if "ok" in mrep else ("exc" in g and err_matches(mrep["exc"], g["exc"]))
+            c2 = case["commands"][p]
+            c2["as_if_U_dropped"] = bool(same)
+        else:
+            same = True
+        bad = None
+        if wf:
+            if "exc" in g:
+                bad = f"analysis fails with {g['exc']} on a unit the reference preprocessor accepts without diagnostics (command: {shown})"
+            elif g["ok"] != rep["spec"]["rows"]:
+                diff = [(a_, b_) for a_, b_ in zip(g["ok"], rep["spec"]["rows"]) if a_ != b_][:3]
+                bad = (f"compile command `{shown}` (-D/-U in command-line order leave {defs} defined): attribution differs from the "
+                       f"C preprocessor reference: (implementation, reference) = " + json.dumps(diff))
+        if bad:
+            problems.append(("violation", case, bad))
+        elif not same:
+            # only a tie problem when the property itself is not contradicted on this input
+            problems.append(("corr", case, g, mrep))
+        if record:
+            ctx.dist["cmdline:" + ("wf" if wf else "not_wf")] += 1
+            kinds = set()
+            seen_d, seen_u = set(), set()
+            for k, v, _ in du_options(argv):
+                n = v.split("=", 1)[0]
+                if k == "D":
+                    if n in seen_u:
+                        kinds.add("U-then-D")
+                    seen_d.add(n)
+                else:
+                    if n in seen_d:
+                        kinds.add("D-then-U")
+                    seen_u.add(n)
+            for kd in kinds or {"no-mixed-name" if seen_u else "D-only"}:
+                ctx.dist["cmdline:" + kd] += 1
+            if wf and "ok" in g:
+                codes = [a_ for k_, _, a_ in g["ok"] if k_ == "code"]
+                if any(codes) and not all(codes):
+                    ctx.nontrivial.add((text, c["argv0"], tuple(argv)))
+        if use_gcc:
+            gm = gcc_cmdline_markers(text, argv)
+            if record:
+                ctx.dist["gcc_cmdline:" + ("diag" if gm is None else "silent")] += 1
+            if gm is not None:
+                if wf and code_markers(text, rep["spec"]["rows"]) != gm:
+                    problems.append(("specgcc", case, f"reference (-D/-U in order, then the ISO C machine) and gcc -E run with the same options disagree: "
+                                     f"reference {sorted(code_markers(text, rep['spec']['rows']))} gcc {sorted(gm)} (command: {shown})"))
+                if "ok" in g and code_markers(text, g["ok"]) != gm and not bad:
+                    problems.append(("violation", case, f"compile command `{shown}`: code lines kept by gcc -E with the same -D/-U options {sorted(gm)} "
+                                     f"!= code lines attributed {sorted(code_markers(text, g['ok']))}"))
+            elif wf and record:
+                ctx.dist["gcc_diag_but_spec_wf"] += 1
+    if record:
+        ctx.sample({"text": text, "commands": commands, "form": form, "origin": "cmdline"}, cap=8)
+    return problems
+
+
+def shrink_cmdline(ctx, drv, impl, root, case, kind):
+    lines = case["text"].split("\n")
+    budget = 150
+    changed = True
+    while changed and budget > 0:
+        changed = False
+        i = 0
+        while i < len(lines) and budget > 0:
+            cand = lines[:i] + lines[i + 1:]
+            budget -= 1
+            pr = evaluate_cmdline(ctx, drv, impl, root, "\n".join(cand), case["commands"], case["form"], use_gcc=(kind == "specgcc"), record=False)
+            if any(q[0] == kind and not any(pred(q[1]) for _, pred in CLASSIFIERS) for q in pr):
+                lines = cand
+                changed = True
+            else:
+                i += 1
+    return "\n".join(lines)
+
+
+def report_cmdline(ctx, drv, impl, root, problems):
+    for pr in problems:
+        kind, case = pr[0], pr[1]
+        if kind == "corr":
+            ctx.corr_break("c01+c11full (compile command -> defines -> attribution)", case, pr[2], pr[3])
+            continue
+        known = any(pred(case) and any(k["id"] == fid for k in ctx.known) for fid, pred in CLASSIFIERS)
+        if kind == "violation" and known:
+            ctx.classify(case, pr[2], CLASSIFIERS)
+            continue
+        if len(ctx.violations) < 3:
+            small = shrink_cmdline(ctx, drv, impl, root, case, kind)
+            if small != case["text"]:
+                again = [q for q in evaluate_cmdline(ctx, drv, impl, root, small, case["commands"], case["form"], use_gcc=True, record=False) if q[0] == kind]
+                if again:
+                    pr = again[0]
+                    case = dict(pr[1], original_text=case["text"])
+        if kind == "specgcc":
+            ctx.violation("SPEC-VALIDATION: " + pr[2], case)
+        else:
+            ctx.classify(case, pr[2], CLASSIFIERS)
+
+
+def probe_block(rng, names, marker0):
+    """conditionals that depend directly on each name (before the unit's own #define/#undef can interfere)"""
+    out, m = [], marker0
+    for n in names:
+        k = rng.random()
+        if k < 0.4:
+            out += [f"#ifdef {n}", f"int m{m};", "#else", f"int m{m + 1};", "#endif"]
+        elif k < 0.7:
+            out += [f"#if defined({n}) && {n} + 0 == {rng.choice([0, 1, 2])}", f"int m{m};", f"#elif defined({n})", f"int m{m + 1};", "#endif"]
+        else:
+            out += [f"#ifndef {n}", f"int m{m};", "#endif", f"int m{m + 1};"]
+        m += 2
+    return out
+
+
+def stream_cmdline(ctx, drv, impl, root, n, gcc_every, deadline):
+    """platforms given by compile commands in a compilation database (the property's 'run with that platform's compile command'):
+    -D and -U of the same macros in both relative orders and both spellings"""
+    for i in range(n):
+        if ctx.elapsed() > deadline:
+            ctx.notes.append(f"cmdline stream stopped after {i}/{n} units (time budget)")
+            break
+        lines, names = gen_program(ctx.rng)
+        if ctx.rng.random() < 0.6:
+            lines = probe_block(ctx.rng, names, 900) + lines[:40]
+        text = "\n".join(lines) + "\n"
+        commands = {}
+        for j in range(ctx.rng.randint(1, 3)):
+            argv0, argv = gen_cmdline(ctx.rng, names, "@FILE@")
+            commands[f"P{j}"] = {"argv0": argv0, "argv": argv}
+        form = ctx.rng.choice(["arguments", "arguments", "command"])
+        report_cmdline(ctx, drv, impl, root, evaluate_cmdline(ctx, drv, impl, root, text, commands, form, use_gcc=(i % gcc_every == 0)))
+
+
+def stream_defined(ctx, drv, impl, root, n, gcc_every, deadline):
+    """units in which `defined` reaches a controlling expression through an object-like macro"""
+    for i in range(n):
+        if ctx.elapsed() > deadline:
+            ctx.notes.append(f"defined-body stream stopped after {i}/{n} units (time budget)")
+            break
+        lines, names = gen_program(ctx.rng, p_defined=0.15, force_defined=True)
+        text = "\n".join(lines) + "\n"
+        report(ctx, drv, impl, root, evaluate(ctx, drv, impl, root, text, gen_platforms(ctx.rng, names), "defined-body", use_gcc=(i % gcc_every == 0)))
+
+
+# ----------------------------------------------------------------------------------------------
+# include stream (small): a file entered again is evaluated against the macro table of that moment
+# ----------------------------------------------------------------------------------------------
+def gen_include_unit(rng, names):
+    """{'main.c': text, '<h>.h': text}: (a) a header that includes itself, each level selected by a counter the previous
+    level redefines (file-iteration idiom); (b) a guarded header included twice, the guard #undef'd and a tested macro changed
+    in between.  Markers are unique over both files."""
+    st = {"m": 0}
+
+    def code():
+        st["m"] += 1
+        return f"int m{st['m']};"
+
+    def chain():
+        n = rng.choice(names)
+        return rng.choice([
+            [f"#ifdef {n}", code(), "#else", code(), "#endif"],
+            [f"#if defined({n}) && {n} + 0 == {rng.choice([0, 1, 2])}", code(), f"#elif defined({n})", code(), "#else", code(), "#endif"],
+            [f"#ifndef {n}", code(), "#endif"],
+        ])
+
+    def change():
+        n = rng.choice(names)
+        return rng.choice([[f"#undef {n}"], [f"#undef {n}", f"#define {n} {rng.choice([0, 1, 2])}"], [f"#undef {n}", f"#define {n}"]])
+
+    if rng.random() < 0.5:
+        levels = rng.randint(2, 4)
+        h = ["#ifndef DEPTH", "#define DEPTH 1", code()] + chain() + ['#include "rep.h"']
+        for d in range(1, levels):
+            h += [f"#elif DEPTH == {d}", "#undef DEPTH", f"#define DEPTH {d + 1}", code()] + (change() if rng.random() < 0.5 else []) + chain()
+            if d < levels - 1 or rng.random() < 0.3:
+                h.append('#include "rep.h"')
+        h += ["#else", code(), "#endif"]
+        main = [code()] + (chain() if rng.random() < 0.5 else []) + ['#include "rep.h"', f"#if DEPTH == {levels}", code(), "#else", code(), "#endif"] + chain()
+        return {"main.c": "\n".join(main) + "\n", "rep.h": "\n".join(h) + "\n"}, "self-include"
+    guard = rng.choice(["G_H", "GUARD_H_", "_G_H_INCLUDED"])
+    opener = rng.choice([f"#ifndef {guard}", f"#if !defined({guard})"])
+    h = [opener, f"#define {guard}"] + chain() + (change() if rng.random() < 0.4 else []) + chain() + ["#endif"]
+    main = [code()] + (chain() if rng.random() < 0.5 else []) + ['#include "g.h"']
+    main += rng.choice([[f"#undef {guard}"], [f"#undef {guard}"], [f"#ifdef {rng.choice(names)}", f"#undef {guard}", "#endif"], []])
+    main += change() + ['#include "g.h"'] + chain()
+    if rng.random() < 0.4:
+        main += [f"#undef {guard}"] + change() + ['#include "g.h"'] + chain()
+    return {"main.c": "\n".join(main) + "\n", "g.h": "\n".join(h) + "\n"}, "guard-undef"
+
+
+def include_find(impl, root, files, platforms):
+    """{platform: set of marker numbers on attributed code lines (all files)} or {'exc': name}"""
+    root = str(root)
+    paths = {}
+    for name, text in files.items():
+        paths[name] = os.path.join(root, name)
+        with open(paths[name], "w", newline="") as f:
+            f.write(text)
+    try:
+        cfg = {p: [{"file": paths["main.c"], "defines": list(d), "include_paths": [], "include_files": []}] for p, d in platforms.items()}
+        st = impl.finder.find(root, impl.CodeBase(root), cfg, summarize_only=False)
+        out = {p: set() for p in platforms}
+        for name, text in files.items():
+            tree, m = st.get_tree(paths[name]), st.get_map(paths[name])
+            rows = [[KIND.get(type(n).__name__, type(n).__name__), list(n.lines), sorted(m[n])] for n in tree.walk() if isinstance(n, impl.pp.CodeNode)]
+            for p in platforms:
+                out[p] |= code_markers(text, [[k, ls, p in ps] for k, ls, ps in rows])
+        return out
+    except Exception as e:  # noqa
+        return {"exc": type(e).__name__}
+    finally:
+        for q in paths.values():
+            os.remove(q)
+
+
+def gcc_include_markers(root, files, defs):
+    root = str(root)
+    for name, text in files.items():
+        with open(os.path.join(root, name), "w", newline="") as f:
+            f.write(text)
+    try:
+        r = subprocess.run(["gcc", "-E", "-P", "-undef", "-x", "c"] + [f"-D{d}" for d in defs] + ["main.c"], cwd=root, capture_output=True, text=True, timeout=20)
+    except Exception:  # noqa
+        return None
+    finally:
+        for name in files:
+            os.remove(os.path.join(root, name))
+    if r.stderr.strip() or r.returncode:
+        return None
+    return set(int(t[1:]) for t in r.stdout.replace(";", " ").split() if t.startswith("m") and t[1:].isdigit())
+
+
+def evaluate_include(ctx, impl, root, files, platforms, shape, record=True):
+    got = include_find(impl, root, files, platforms)
+    out = []
+    for p, defs in platforms.items():
+        gm = gcc_include_markers(root, files, defs)
+        if record:
+            ctx.count(key="include:" + shape)
+            ctx.dist["gcc_include:" + ("diag" if gm is None else "silent")] += 1
+        if gm is None:
+            continue
+        case = {"files": files, "platforms": {p: defs}, "origin": "include", "include": True, "text": files["main.c"]}
+        if "exc" in got:
+            if len(platforms) == 1:
+                out.append((case, f"analysis fails with {got['exc']} on a translation unit (main.c + header) gcc -E accepts without diagnostics"))
+            else:
+                out += evaluate_include(ctx, impl, root, files, {p: defs}, shape, record=False)
+        elif got[p] != gm:
+            out.append((case, f"translation unit main.c + {[n for n in files if n != 'main.c'][0]} ({shape}), -D {defs}: code lines kept by gcc -E {sorted(gm)} != code lines attributed {sorted(got[p])}"))
+        elif record and gm:
+            ctx.nontrivial.add((json.dumps(files, sort_keys=True), tuple(defs)))
+    return out
+
+
+def stream_include(ctx, drv, impl, root, n, deadline):
+    """a header entered more than once in ONE translation unit (from inside itself / after its guard was #undef'd), judged
+    against gcc -E on the same files (the multi-file Lean model is C04's; this stream only widens C01's input space)"""
+    for i in range(n):
+        if ctx.elapsed() > deadline:
+            break
+        names = NAMES[:3]
+        files, shape = gen_include_unit(ctx.rng, names)
+        for case, what in evaluate_include(ctx, impl, root, files, gen_platforms(ctx.rng, names), shape):
+            ctx.classify(case, what, CLASSIFIERS)
+        if i < 2:
+            ctx.sample({"files": files, "origin": "include:" + shape}, cap=10)
+
+
 def setup(ctx):
     ctx.rule = ("one generated C translation unit x 2-4 platforms (-D assignments of undefined/empty/0/1/other to 3-4 names). "
                 "Random units contain 'indirection drills' (an outer macro used before and after the macro it names is redefined); every fourth one is "
@@ -567,7 +1058,17 @@ def setup(ctx):
                 "a marker code line in every gap, every truth assignment of the controlling macros; random = Block ASTs of depth <= 6 and "
                 "<= 40 lines (conditions: defined X, X, !X, X==k, X&&Y, arithmetic, #ifdef/#ifndef; #define/#undef on all paths; a few "
                 "malformed expressions); malformed = random units with conditional directives deleted/duplicated/moved/inserted "
-                "(model = code only unless the reference still accepts the unit); c23 = units with #elifdef/#elifndef judged against gcc -E. "
+                "(model = code only unless the reference still accepts the unit); c23 = units with #elifdef/#elifndef judged against gcc -E; "
+                "defined-body = random units that start with a 'defined drill' (an object-like macro whose replacement list contains the `defined` "
+                "operator - 14 body shapes, both spellings - used in #if/#elif, then the tested name is #undef'd/#define'd and the macro is used again; "
+                "the same bodies also appear in 8 % of the #define lines and as drills in 3 % of the block items of every random unit); "
+                "cmdline = the platform's COMPILE COMMAND through the real path (compile_commands.json -> config.load_database -> "
+                "ArgumentParser.parse_args -> finder.find): per macro a history of -D/-U options ([], D, U, UD, DU, DUD, UDU, UUD, DD), histories merged in "
+                "random order, attached and separate spelling (-DX=1 / -D X=1 / -UX / -U X), five compiler names, `arguments` and `command` form, other "
+                "options in between; expectation = the options processed in command-line order (GCC manual) then the ISO C reference machine, validated "
+                "against gcc -E run with the same -D/-U options; model side = C11 argument-parser model (op c11full) composed with the C01 model. "
+                "include = main.c + one header entered more than once in the same unit (self-including header whose levels are selected by a counter "
+                "macro; guarded header included again after #undef of its guard and a change of a tested macro), judged against gcc -E only. "
                 "Non-trivial = distinct (unit, -D set) that the reference accepts without diagnostic, the analysis completes, and at least "
                 "one code line is attributed and at least one is skipped.")
     ctx.assumptions += [
@@ -593,7 +1094,14 @@ def run(ctx, drv, search_mode=False):
             ctx.notes.append("exhaustive stream cut by the time budget")
         stream_malformed(ctx, drv, impl, root, ctx.n(250, 3000), deadline=t0 + limit * 0.6)
         stream_c23(ctx, drv, impl, root, ctx.n(40, 400), deadline=t0 + limit * 0.65)
-        stream_random(ctx, drv, impl, root, ctx.n(800, 6000), gcc_every=(2 if thorough else 8), deadline=t0 + limit)
+        # the two streams below have their own allowance on top of `limit` (quick: <= 7 s + 9 s)
+        extra = 0.0
+        t1 = ctx.elapsed()
+        stream_defined(ctx, drv, impl, root, ctx.n(70, 700), gcc_every=(1 if thorough else 3), deadline=t1 + (40 if thorough else 7))
+        stream_cmdline(ctx, drv, impl, root, ctx.n(90, 900), gcc_every=(1 if thorough else 2), deadline=ctx.elapsed() + (60 if thorough else 9))
+        stream_include(ctx, drv, impl, root, ctx.n(40, 400), deadline=ctx.elapsed() + (30 if thorough else 4))
+        extra = ctx.elapsed() - t1
+        stream_random(ctx, drv, impl, root, ctx.n(800, 6000), gcc_every=(2 if thorough else 8), deadline=t0 + limit + extra)
     ctx.extra["gcc_oracle"] = {k: v for k, v in ctx.dist.items() if k.startswith("gcc")}
 
 
@@ -605,6 +1113,44 @@ def search(ctx, drv):
 def replay(ctx, drv, case):
     impl = Impl()
     out = {}
+
+    def compact_rows(x):
+        if isinstance(x, dict):
+            return {k: compact_rows(v) if k in ("ok", "rows") else v for k, v in x.items()}
+        return [f"{k} {','.join(map(str, ls))} {'+' if a else '-'}" for k, ls, a in x]
+
+    if case.get("include"):
+        with core.Scratch() as root:
+            for p, defs in case["platforms"].items():
+                got = include_find(impl, root, case["files"], {p: defs})
+                gm = gcc_include_markers(root, case["files"], defs)
+                out[p] = {"defines": defs, "implementation_markers": sorted(got[p]) if p in got else got,
+                          "gcc_markers": None if gm is None else sorted(gm)}
+        out["files"] = {k: v.split("\n") for k, v in case["files"].items()}
+        return out
+    if case.get("cmdline"):
+        with core.Scratch() as root:
+            for p, c in case["commands"].items():
+                argv = c["argv"]
+                defs, diag = reference_defs(argv)
+                r = {"command": [c["argv0"]] + ["u.c" if a == "@FILE@" else a for a in argv], "form": case.get("form", "arguments"),
+                     "macro_options_in_order": [[k, v] for k, v, _ in du_options(argv)],
+                     "reference_defines_at_start_of_unit": defs, "command_line_redefinition": diag,
+                     "undefine_after_define_of": undefine_after_define(argv),
+                     "implementation": compact_rows(cmdline_find(impl, root, case["text"], {p: c}, case.get("form", "arguments"))[p])}
+                if drv is not None:
+                    r["spec"] = compact_rows(drv.ask({"op": "c01", "text": case["text"], "defs": defs})["spec"])
+                    a = drv.ask({"op": "c11full", "argv": ["u.c" if x == "@FILE@" else x for x in argv], "argv0": c["argv0"]})
+                    r["model_defines (C11 argument-parser model)"] = a.get("model")
+                    if "ok" in a.get("model", {}):
+                        r["model"] = compact_rows(drv.ask({"op": "c01", "text": case["text"], "defs": a["model"]["ok"]["defines"]})["model"])
+                gm = gcc_cmdline_markers(case["text"], argv)
+                r["gcc_markers (gcc -E with the same -D/-U options)"] = None if gm is None else sorted(gm)
+                if "ok" in r["implementation"]:
+                    r["implementation_markers"] = sorted(code_markers(case["text"], cmdline_find(impl, root, case["text"], {p: c}, case.get("form", "arguments"))[p]["ok"]))
+                out[p] = r
+        out["text"] = case["text"].split("\n")
+        return out
     if case.get("multi_command"):
         c2 = core.Ctx(ctx.prop, "quick", 0)
         with core.Scratch() as root:
